@@ -159,6 +159,16 @@ class KeyProcessor:
 
             if retry:
                 retry = False
+
+                # When the handler that we just called finished the
+                # application (e.g. 'accept' or 'abort'), the keys that are
+                # left in the key buffer don't belong to this application
+                # anymore. Keep them as typeahead, like `process_keys` does
+                # for the keys that are still in the input queue.
+                if buffer and get_app().is_done:
+                    self.input_queue.extendleft(reversed(buffer))
+                    del buffer[:]
+                    continue
             else:
                 key = yield
                 if key is _Flush:
